@@ -270,6 +270,8 @@ def cbmc_group(g, cfile, scratch, tag, props=None, trace=True):
         cb += ['--unwindset', '%s:%d' % (k, v)]
     if g.get('unwindset') and g.get('unwind') is None:
         cb += ['--unwinding-assertions']
+    if g.get('solver'):
+        cb += ['--sat-solver', g['solver']]
     cb += g.get('cbmc_flags', [])
     if props:
         for p in props:
@@ -386,7 +388,7 @@ def native_replay(g, L, allc, inputs_path, scratch, pid):
 
 def process_group(args):
     g, pid, scratch, tier, known = args
-    res = {'name': g['name'], 'kind': g['kind'], 'enforce': g.get('enforce'), 'replace': g.get('replace', []),
+    res = {'back_end': 'cbmc 6.11.0 SAT (%s)' % (g.get('solver') or 'minisat2'), 'name': g['name'], 'kind': g['kind'], 'enforce': g.get('enforce'), 'replace': g.get('replace', []),
            'bound': g.get('bound', ''), 'obligations': 0, 'discharged': 0, 'failed': [], 'undecided': None,
            'wall': 0.0, 'samples': [], 'violations': [], 'known': [], 'vacuity': None, 'loop_obligations': 0}
     try:
@@ -697,7 +699,7 @@ def write_evidence(pid, tier, seed, spec, groups, results, wall, violations, kno
         'groups': [{'name': r['name'], 'kind': r['kind'], 'bound': r['bound'], 'enforce': r['enforce'],
                     'replace': r['replace'], 'obligations': r['obligations'], 'discharged': r['discharged'],
                     'loop_obligations': r['loop_obligations'], 'vacuity': r['vacuity'],
-                    'solver_wall_s': round(r['wall'], 2), 'back_end': 'cbmc 6.11.0 SAT (minisat2)',
+                    'solver_wall_s': round(r['wall'], 2), 'back_end': r.get('back_end', 'cbmc 6.11.0 SAT (minisat2)'),
                     'undecided': r['undecided'],
                     'failed': [{'obligation': f['obligation'], 'native': f['native']} for f in r['failed']]}
                    for r in results],
